@@ -556,3 +556,259 @@ def resolve_failure_releases_region(off: int, length: int, decode_ok: bool) -> b
         return False
     fn()
     return [e for e in _EV if e[0] == "free"] == [("free", off)]
+
+
+# ---------------------------------------------------------------------------
+# (e) the server's stream loop: every input region it resolved is released (before output EOS)
+# ---------------------------------------------------------------------------
+#
+# Real bytecode of RpcServer._serve_stream (re-globalised: time := counter, resolve_shm_batch :=
+# the real function with only _deserialize_from_shm stubbed) with real pyarrow running concretely
+# on in-memory transports.  The solver's part is the case split over the step script.
+
+from dataclasses import dataclass  # noqa: E402
+from io import BytesIO  # noqa: E402
+from typing import Protocol  # noqa: E402
+
+from pyarrow import ipc  # noqa: E402
+
+from engine.api import pick  # noqa: E402
+from vgi_rpc.rpc import ExchangeState, Stream  # noqa: E402
+from vgi_rpc.rpc import _server as srv  # noqa: E402
+from vgi_rpc.utils import IpcValidation  # noqa: E402
+
+_S_IN = pa.schema([pa.field("x", pa.int64())])
+_S_OUT = pa.schema([pa.field("y", pa.int64())])
+_NS = 3  # inputs per call (bound)
+_S_BATCHES = tuple(pa.RecordBatch.from_pydict({"x": [i]}, schema=_S_IN) for i in range(_NS))
+_S_WRONG_FIELDS = pa.RecordBatch.from_pydict({"z": ["a"]})
+_S_WRONG_TYPE = pa.RecordBatch.from_pydict({"x": ["abc"]})
+_S_OUT_BATCH = pa.RecordBatch.from_pydict({"y": [1]}, schema=_S_OUT)
+_S_LEN = 512
+# step kinds
+_K_EMIT, _K_RAISE, _K_NOTHING, _K_FIELDS, _K_TYPE, _K_UNDECODABLE = 0, 1, 2, 3, 4, 5
+
+
+def _s_off(i: int) -> int:
+    return shm_mod.HEADER_SIZE + 1024 * i
+
+
+def _s_request(t: int, mask: int, cancel: bool, offsets: tuple | None = None) -> bytes:
+    """Input IPC stream: t inputs, input i a shm pointer iff bit i of mask, optionally a cancel batch."""
+    b = BytesIO()
+    with ipc.new_stream(b, _S_IN) as w:
+        for i in range(t):
+            if (mask >> i) & 1:
+                off, ln = (offsets[i] if offsets is not None else (_s_off(i), _S_LEN))
+                ptr, cm = shm_mod.make_shm_pointer_batch(_S_IN, off, ln)
+                w.write_batch(ptr, custom_metadata=cm)
+            else:
+                w.write_batch(_S_BATCHES[i])
+        if cancel:
+            w.write_batch(_S_BATCHES[0].slice(0, 0), custom_metadata=pa.KeyValueMetadata({md.CANCEL_KEY: b"1"}))
+    return b.getvalue()
+
+
+# concrete request bytes for every (t, carrier mask, cancel): the symbolic choice only selects
+_S_REQ = tuple(tuple(tuple(_s_request(t, m, c) for c in (False, True)) for m in range(1 << _NS)) for t in range(_NS + 1))
+
+
+class _SClock:
+    def __init__(self) -> None:
+        self.now = 0
+
+    def monotonic(self) -> int:
+        self.now += 1
+        return self.now
+
+    def __getattr__(self, name: str) -> object:
+        raise HarnessModelError("clock stub touched through " + name)
+
+
+class _STransport:
+    def __init__(self, request: bytes) -> None:
+        self.reader = BytesIO(request)
+        self.writer = BytesIO()
+
+
+class _SSeg:
+    """Fake segment for the stream loop: events carry the output length at the time of the free."""
+
+    name = "seg"
+
+    def read_buffer(self, offset: int, length: int) -> tuple:
+        _EV.append(("read", offset))
+        return ("region", offset, length)
+
+    def free(self, offset: int) -> None:
+        _EV.append(("free", offset, len(_H["tr"].writer.getvalue())))
+
+    def __getattr__(self, name: str) -> object:
+        raise HarnessModelError(f"segment used through .{name}")
+
+
+def _s_deser(buf: tuple, schema: object) -> pa.RecordBatch:
+    i = (buf[1] - shm_mod.HEADER_SIZE) // 1024
+    k = _H["script"][i]
+    if k == _K_UNDECODABLE:
+        raise pa.ArrowInvalid("Invalid IPC stream")
+    _EV.append(("decoded", buf[1]))
+    if k == _K_FIELDS:
+        return _S_WRONG_FIELDS
+    if k == _K_TYPE:
+        return _S_WRONG_TYPE
+    return _S_BATCHES[i]
+
+
+@dataclass
+class _SState(ExchangeState):
+    def exchange(self, input, out, ctx) -> None:  # type: ignore[no-untyped-def]
+        i = _H["i"]
+        _H["i"] = i + 1
+        _EV.append(("proc_start", i))
+        try:
+            k = _H["script"][i]
+            if k == _K_RAISE:
+                raise ValueError("boom")
+            if k == _K_NOTHING:
+                return
+            out.emit(_S_OUT_BATCH)
+        finally:
+            _EV.append(("proc_end", i))
+
+
+class _SProto(Protocol):
+    def exch(self) -> Stream[ExchangeState]: ...
+
+
+class _SImpl:
+    def exch(self) -> Stream[_SState]:
+        return Stream(output_schema=_S_OUT, state=_SState(), input_schema=_S_IN)
+
+
+_S_SERVER = srv.RpcServer(_SProto, _SImpl(), server_id="srv", ipc_validation=IpcValidation.FULL)
+_s_resolve = reglobalize(shm_mod.resolve_shm_batch, _deserialize_from_shm=_s_deser)
+_s_serve_stream = reglobalize(srv.RpcServer._serve_stream, time=_SClock(), resolve_shm_batch=_s_resolve)
+_S_STUBS = [
+    "time.monotonic := concrete counter (access-log duration only)",
+    "_deserialize_from_shm := the batch the script says the region holds (right schema | other field set | uncastable type) | pa.ArrowInvalid",
+    "segment := event recorder (read_buffer / free with the output length at that moment)",
+    "transport := in-memory BytesIO pair; pyarrow runs concretely",
+]
+
+
+def _s_terminating(t: int, mask: int, script: tuple) -> int:
+    """Index of the first input that ends the stream with an error (t if none does)."""
+    for i in range(t):
+        k = script[i]
+        ptr = (mask >> i) & 1
+        if k in (_K_RAISE, _K_NOTHING) or (ptr and k in (_K_FIELDS, _K_TYPE, _K_UNDECODABLE)):
+            return i
+    return t
+
+
+def _replay_serve_stream(a: dict) -> str | None:
+    """Un-stubbed RpcServer._serve_stream, real pyarrow, real POSIX segment holding real regions."""
+    t, mask, cancel = a["t"], a["mask"], a["cancel"]
+    script = (a["k0"], a["k1"], a["k2"])
+    seg = shm_mod.ShmSegment.create(shm_mod.HEADER_SIZE + 1024 * 1024)
+    try:
+        offsets: list = []
+        for i in range(_NS):
+            k = script[i]
+            if not ((mask >> i) & 1) or i >= t:
+                offsets.append((0, 0))
+                continue
+            if k == _K_UNDECODABLE:
+                off = seg.allocator.allocate(_S_LEN)
+                assert off is not None
+                seg.buf[off : off + _S_LEN] = b"\x07" * _S_LEN
+                offsets.append((off, _S_LEN))
+            else:
+                held = _S_WRONG_FIELDS if k == _K_FIELDS else (_S_WRONG_TYPE if k == _K_TYPE else _S_BATCHES[i])
+                res = seg.allocate_and_write(held)
+                assert res is not None
+                offsets.append(res)
+        tr = _STransport(_s_request(t, mask, cancel, tuple(offsets)))
+        _H.clear()
+        _H.update(script=script, i=0, tr=tr)
+        try:
+            _S_SERVER._serve_stream(tr, _S_SERVER._methods["exch"], {}, shm=seg)
+        except Exception as e:  # noqa: BLE001
+            return f"_serve_stream raised {type(e).__name__}: {e}"
+        last = _s_terminating(t, mask, script)
+        consumed = [offsets[i][0] for i in range(min(last + 1, t)) if (mask >> i) & 1]
+        live = [o for o, _ln in seg.allocator._read_allocs()]
+        leaked = [o for o in consumed if o in live]
+        if leaked:
+            why = "its processing raised" if script[last] in (_K_RAISE, _K_NOTHING) else "it could not be coerced/decoded"
+            return (
+                f"after the stream call ended (output EOS written) {len(leaked)} input region(s) the server had resolved are still allocated at {leaked}: "
+                f"input {last} ended the stream because {why} and its release handle was dropped; live table {seg.allocator._read_allocs()}"
+            )
+        return None
+    finally:
+        seg.close()
+        seg.unlink()
+
+
+_T_MAX = pick(3, 3)
+_KINDS_A = (_K_EMIT, _K_RAISE, _K_NOTHING, _K_UNDECODABLE)
+
+
+def _serve_stream_accounting(t: int, mask: int, cancel: bool, script: tuple) -> bool:
+    _EV.clear()
+    _H.clear()
+    tr = _STransport(_S_REQ[t][mask][1 if cancel else 0])
+    _H.update(script=script, i=0, tr=tr)
+    try:
+        _s_serve_stream(_S_SERVER, tr, _S_SERVER._methods["exch"], {}, shm=_SSeg())
+    except HarnessModelError:
+        raise
+    except Exception:  # noqa: BLE001
+        return False
+    final_len = len(tr.writer.getvalue())
+    reads = [e[1] for e in _EV if e[0] == "read"]
+    frees = [e for e in _EV if e[0] == "free"]
+    # every region the server read is freed exactly once, nothing else is freed
+    if sorted(f[1] for f in frees) != sorted(reads) or len(set(reads)) != len(reads):
+        return False
+    for f in frees:
+        fi = _EV.index(f)
+        if fi < _EV.index(("read", f[1])):
+            return False
+        # ... before the output stream's EOS marker (8 bytes) is written: EOS tells the client every region is back
+        if f[2] > final_len - 8:
+            return False
+        # ... and not while process() on that input is still running
+        i = (f[1] - shm_mod.HEADER_SIZE) // 1024
+        if ("proc_start", i) in _EV and fi < _EV.index(("proc_end", i)):
+            return False
+    return True
+
+
+@cond(q=90, t=300, stubs=_S_STUBS, encoded=[srv.RpcServer._serve_stream, shm_mod.resolve_shm_batch, types_mod.AnnotatedBatch.release],
+      replay=_replay_serve_stream,
+      bound="exchange stream, 0..3 inputs each inline or shm pointer, per input {emit, process raises, emits nothing (validate raises), region undecodable}, close or cancel",
+      signature=lambda args, conc: "C29:serve-stream:input-region-not-released")
+def serve_stream_releases_inputs(t: int, mask: int, cancel: bool, k0: int, k1: int, k2: int) -> bool:
+    """
+    pre: 0 <= t <= _T_MAX and 0 <= mask < 8 and k0 in _KINDS_A and k1 in _KINDS_A and k2 in _KINDS_A
+    post: _
+    """
+    return _serve_stream_accounting(t, mask, cancel, (k0, k1, k2))
+
+
+@cond(q=60, t=200, stubs=_S_STUBS, encoded=[srv.RpcServer._serve_stream, wire._coerce_input_batch, shm_mod.resolve_shm_batch],
+      replay=_replay_serve_stream,
+      bound="exchange stream, 1..3 inputs each inline or shm pointer, all echoed except the last: a shm region holding a batch of another field set | an uncastable column type",
+      signature=lambda args, conc: "C29:serve-stream:uncoercible-input-region-leaked")
+def serve_stream_releases_uncoercible_input(t: int, mask: int, cancel: bool, k0: int, k1: int, k2: int) -> bool:
+    """
+    pre: 1 <= t <= _T_MAX and 0 <= mask < 8 and (mask >> (t - 1)) % 2 == 1
+    pre: (k0, k1, k2)[t - 1] in (_K_FIELDS, _K_TYPE)
+    pre: all(k == _K_EMIT for k in (k0, k1, k2)[: t - 1])
+    pre: 0 <= k0 <= 5 and 0 <= k1 <= 5 and 0 <= k2 <= 5
+    post: _
+    """
+    return _serve_stream_accounting(t, mask, cancel, (k0, k1, k2))
